@@ -44,6 +44,20 @@ func TestVerif_Histories(t *testing.T) {
 	r.Finish()
 }
 
+// Wide fan-out: the node under a stored prefix key grows past and shrinks below every radix node size (sweep transactions) while
+// Get/List/Prefix watch channels of that prefix and of keys below it are retained: the channel of a node replaced by a promotion or
+// demotion must close like any other.
+func TestVerif_HistoriesWide(t *testing.T) {
+	r := vkit.Start(t, "C06", "histories-wide", "fault_enumeration", rule+" (variant: one table with wide fan-out ids and sweep transactions)")
+	r.Require("watch_verdicts", "watch_handouts", "commits")
+	o := dbsim.Opts{Tables: 1, Txns: 40, MaxOps: 16, ProbesPerIndex: 2, AbortPct: 15, Watches: 60, Retain: 2, SchemaPick: []int{4},
+		Report: map[string]bool{"watch": true}}
+	r.ParallelCases(vkit.N(500, 25000), vkit.Workers(), func(i int) {
+		dbsim.RunPlain(r, i, o, func(s *dbsim.Sim) bool { return s.WatchVerdicts() >= 3 })
+	})
+	r.Finish()
+}
+
 // Concurrent waiters under the race detector: every waiter that wakes up on a channel takes a ReadTxn immediately and
 // must see a newer table revision than the snapshot its channel came from; every channel whose query result is changed
 // by a commit must wake its waiter by the time Commit returned (bounded: the committer checks a flag after Commit).
